@@ -1,6 +1,237 @@
-//! C03 — not built yet.
-use crate::core::Ctx;
+//! C03 — Context add/sub/mul/div/sqrt/sqr/cubic/inv honour the rounding contract of the mode.
+//! All operand tuples of F(B,P,E) that fit the precision, all six modes; oracle: exact rationals
+//! (sqrt judged through exact comparisons of squares).
+
+use crate::core::{guard, Ctx, Rec};
+use crate::for_all_modes;
+use crate::fref::*;
+use crate::h::unflatten;
+use dashu_base::Approximation;
+use dashu_float::{Context, FBig, Repr};
+use dashu_int::Word;
+use num_bigint::BigInt;
+use num_traits::Zero;
+
+const P: &str = "C03";
+
+struct Val<const B: Word> {
+    s: BigInt,
+    e: i64,
+    digits: usize,
+    rat: Rat,
+    repr: Repr<B>,
+}
+
+fn vals<const B: Word>(u: &[(BigInt, i64)]) -> Vec<Val<B>> {
+    u.iter()
+        .map(|(s, e)| Val { s: s.clone(), e: *e, digits: digits_b(s, B as u32), rat: Rat::scaled(s, B as u32, *e), repr: mk_repr::<B>(s, *e) })
+        .collect()
+}
+
+fn check<R: ModeTag, const B: Word>(rec: &mut Rec, op: &str, case: &dyn Fn() -> String, p: usize, x: &dyn ExactReal, got: Result<Approximation<FBig<R, B>, dashu_float::round::Rounding>, String>) {
+    rec.step();
+    match got {
+        Ok(a) => {
+            let flag = flag_of(&a);
+            let v = match &a {
+                Approximation::Exact(v) => v,
+                Approximation::Inexact(v, _) => v,
+            };
+            if v.repr().is_infinite() {
+                rec.fail(format!("{}|Context::{}|infinite-result|B{},{}", P, op, B, R::MODE.name()), case(), "infinite", x.describe());
+                return;
+            }
+            let r = fval(v.repr());
+            match judge(x, &r, flag, p, R::MODE) {
+                Ok(class) => rec.hit(class),
+                Err((kind, why)) => rec.fail(format!("{}|Context::{}|{}|B{},{},p{}", P, op, kind, B, R::MODE.name(), if p <= 3 { "<=3" } else { ">3" }), case(), format!("{} flag {:?}: {}", r.show(), flag, why), format!("exact {} rounded to {} digits in mode {}", x.describe(), p, R::MODE.name())),
+            }
+            if v.precision() != p {
+                rec.fail(format!("{}|Context::{}|result-precision|B{}", P, op, B), case(), format!("result carries precision {}", v.precision()), format!("{}", p));
+            }
+        }
+        Err(pm) => rec.fail(format!("{}|Context::{}|panic|B{},{}", P, op, B, R::MODE.name()), case(), pm, format!("exact {} rounded to {} digits", x.describe(), p)),
+    }
+}
+
+/// which adjustment flags an inexact result can carry in each mode (vacuity guard)
+fn inexact_classes(m: Mode) -> &'static [&'static str] {
+    match m {
+        Mode::Zero => &["inexact-noop"],
+        Mode::Away => &["inexact-addone", "inexact-subone"],
+        Mode::Up => &["inexact-addone", "inexact-noop"],
+        Mode::Down => &["inexact-subone", "inexact-noop"],
+        _ => &["inexact-addone", "inexact-subone", "inexact-noop"],
+    }
+}
+
+fn binary<R: ModeTag, const B: Word>(ctx: &mut Ctx, va: &[Val<B>], vb: &[Val<B>], precs: &[usize], tag: &str) {
+    let (na, nb, np) = (va.len() as u64, vb.len() as u64, precs.len() as u64);
+    let name = format!("binary.B{}.{}.{}", B, R::MODE.name(), tag);
+    ctx.sweep(&name, na * nb * np, |i, rec| {
+        let [ia, ib, ip] = unflatten(i, [na, nb, np]);
+        let (a, b, p) = (&va[ia], &vb[ib], precs[ip]);
+        if a.digits > p || b.digits > p {
+            rec.hit("skipped:operand-longer-than-precision");
+            return;
+        }
+        let c = Context::<R>::new(p);
+        let desc = |op: &'static str| move || format!("base {} p={} {}: {}e{} {} {}e{}", B, p, R::MODE.name(), a.s, a.e, op, b.s, b.e);
+        check::<R, B>(rec, "add", &desc("+"), p, &a.rat.add(&b.rat), guard(|| c.add(&a.repr, &b.repr)));
+        check::<R, B>(rec, "sub", &desc("-"), p, &a.rat.sub(&b.rat), guard(|| c.sub(&a.repr, &b.repr)));
+        check::<R, B>(rec, "mul", &desc("*"), p, &a.rat.mul(&b.rat), guard(|| c.mul(&a.repr, &b.repr)));
+        if !b.s.is_zero() {
+            check::<R, B>(rec, "div", &desc("/"), p, &a.rat.div(&b.rat), guard(|| c.div(&a.repr, &b.repr)));
+        } else {
+            rec.step();
+            match guard(|| c.div(&a.repr, &b.repr)) {
+                Err(m) if !crate::core::is_internal_panic(&m) => rec.hit("div-by-zero-panics"),
+                Err(m) => rec.fail(format!("{}|Context::div|internal-panic|by-zero", P), desc("/")(), m, "documented divide-by-zero panic"),
+                Ok(_) => rec.fail(format!("{}|Context::div|missing-panic|by-zero", P), desc("/")(), "returned a value", "panic"),
+            }
+        }
+        // the FBig operators at the same precision must give the Context value
+        if ip == 0 && !a.s.is_zero() && !b.s.is_zero() {
+            let (fa, fb) = (FBig::<R, B>::from_repr(a.repr.clone(), c), FBig::<R, B>::from_repr(b.repr.clone(), c));
+            let pairs: [(&str, Result<FBig<R, B>, String>, Result<FBig<R, B>, String>); 4] = [
+                ("add", guard(|| &fa + &fb), guard(|| c.add(&a.repr, &b.repr).value())),
+                ("sub", guard(|| &fa - &fb), guard(|| c.sub(&a.repr, &b.repr).value())),
+                ("mul", guard(|| &fa * &fb), guard(|| c.mul(&a.repr, &b.repr).value())),
+                ("div", guard(|| &fa / &fb), guard(|| c.div(&a.repr, &b.repr).value())),
+            ];
+            for (op, o, m) in pairs {
+                rec.step();
+                let same = match (&o, &m) {
+                    (Ok(x), Ok(y)) => fval(x.repr()).rat() == fval(y.repr()).rat(),
+                    (Err(_), Err(_)) => true,
+                    _ => false,
+                };
+                if !same {
+                    rec.fail(format!("{}|FBig::{}|operator-differs-from-context|B{}", P, op, B), desc("op")(), format!("{:?}", o.map(|v| fval(v.repr()).show())), format!("{:?}", m.map(|v| fval(v.repr()).show())));
+                }
+            }
+        }
+        // alignment classes of the addition algorithm, from (ediff, digits, p)
+        if !a.s.is_zero() && !b.s.is_zero() {
+            let ed = (a.e - b.e).abs() as usize;
+            rec.hit(if ed == 0 { "align:equal-exponent" } else if ed > p + 2 + 2 { "align:far-apart" } else if ed > p { "align:beyond-precision" } else { "align:overlap" });
+            let sum = a.rat.add(&b.rat);
+            if sum.is_zero() {
+                rec.hit("cancel-to-zero");
+            }
+            rec.nontrivial();
+        }
+        rec.sample(|| desc("(+,-,*,/)")());
+    });
+    ctx.require_classes(&name, &["exact", "align:equal-exponent", "align:overlap", "align:beyond-precision", "cancel-to-zero", "div-by-zero-panics"]);
+    ctx.require_classes(&name, inexact_classes(R::MODE));
+}
+
+fn unary<R: ModeTag, const B: Word>(ctx: &mut Ctx, va: &[Val<B>], precs: &[usize]) {
+    let (na, np) = (va.len() as u64, precs.len() as u64);
+    let name = format!("unary.B{}.{}", B, R::MODE.name());
+    ctx.sweep(&name, na * np, |i, rec| {
+        let [ia, ip] = unflatten(i, [na, np]);
+        let (a, p) = (&va[ia], precs[ip]);
+        if a.digits > p {
+            rec.hit("skipped:operand-longer-than-precision");
+            return;
+        }
+        let c = Context::<R>::new(p);
+        let desc = |op: &'static str| move || format!("base {} p={} {}: {}({}e{})", B, p, R::MODE.name(), op, a.s, a.e);
+        check::<R, B>(rec, "sqr", &desc("sqr"), p, &a.rat.mul(&a.rat), guard(|| c.sqr(&a.repr)));
+        check::<R, B>(rec, "cubic", &desc("cubic"), p, &a.rat.mul(&a.rat).mul(&a.rat), guard(|| c.cubic(&a.repr)));
+        if !a.s.is_zero() {
+            check::<R, B>(rec, "inv", &desc("inv"), p, &Rat::from_i(1).div(&a.rat), guard(|| c.inv(&a.repr)));
+        }
+        if !a.rat.is_neg() {
+            check::<R, B>(rec, "sqrt", &desc("sqrt"), p, &SqrtOf(a.rat.clone()), guard(|| c.sqrt(&a.repr)));
+            rec.hit(if (a.digits as i64 + a.e) % 2 == 0 { "sqrt:even-magnitude" } else { "sqrt:odd-magnitude" });
+        } else {
+            rec.step();
+            match guard(|| c.sqrt(&a.repr)) {
+                Err(m) if !crate::core::is_internal_panic(&m) => rec.hit("sqrt-negative-panics"),
+                Err(m) => rec.fail(format!("{}|Context::sqrt|internal-panic|negative", P), desc("sqrt")(), m, "documented panic"),
+                Ok(_) => rec.fail(format!("{}|Context::sqrt|missing-panic|negative", P), desc("sqrt")(), "returned a value", "panic"),
+            }
+        }
+        if !a.s.is_zero() {
+            rec.nontrivial();
+        }
+        rec.sample(|| desc("(sqr,cubic,inv,sqrt)")());
+    });
+    ctx.require_classes(&name, &["exact", "sqrt:even-magnitude", "sqrt:odd-magnitude", "sqrt-negative-panics"]);
+    ctx.require_classes(&name, inexact_classes(R::MODE));
+}
+
+fn base_run<R: ModeTag, const B: Word>(ctx: &mut Ctx, big: &(u32, i64), small: &(u32, i64), precs: &[usize], full: bool) {
+    let va = vals::<B>(&f_universe(B as u32, big.0, big.1));
+    if full {
+        binary::<R, B>(ctx, &va, &va, precs, "full");
+    } else {
+        let vb = vals::<B>(&f_universe(B as u32, small.0, small.1));
+        binary::<R, B>(ctx, &va, &vb, precs, "AxS");
+        binary::<R, B>(ctx, &vb, &va, precs, "SxA");
+    }
+    // unary ops over a wider exponent range and all digit counts
+    let vu = vals::<B>(&f_universe(B as u32, big.0 + if B == 2 { 2 } else { 1 }, big.1 + 2));
+    let mut up = precs.to_vec();
+    up.push(precs.last().unwrap() + 1);
+    up.push(precs.last().unwrap() + 2);
+    unary::<R, B>(ctx, &vu, &up);
+}
 
 pub fn run(ctx: &mut Ctx) {
-    ctx.machinery("check C03 is not built yet");
+    ctx.rule = "for every base, mode and precision p in the listed sets: all ordered operand pairs (a, b) from the closed universes F(B,P,E) = { s*B^e : |s| < B^P, |e| <= E } whose digit counts fit p (quick: one operand ranges over the full exponent range, the other over |e| <= 1, both orders) through Context::{add,sub,mul,div}, and all single operands through sqr/cubic/inv/sqrt; each (value, flag) judged against the exact rational result (sqrt: exact comparison of squares) by the rounding contract of the property. non-trivial = both operands non-zero".into();
+    ctx.assume("exact rational arithmetic on num_bigint::BigInt is the reference; the contract judged is exactly the property statement (ties in half modes are not judged beyond <= 1/2 ulp)");
+    // self-check of the judge on hand-computed cases
+    {
+        let x = Rat::new(BigInt::from(1234), BigInt::from(1000)); // 1.234
+        let ok = judge(&x, &FVal { sig: BigInt::from(12), exp: -1, base: 10 }, Flag::Inexact(dashu_float::round::Rounding::NoOp), 2, Mode::Zero).is_ok()
+            && judge(&x, &FVal { sig: BigInt::from(13), exp: -1, base: 10 }, Flag::Inexact(dashu_float::round::Rounding::AddOne), 2, Mode::Up).is_ok()
+            && judge(&x, &FVal { sig: BigInt::from(13), exp: -1, base: 10 }, Flag::Inexact(dashu_float::round::Rounding::AddOne), 2, Mode::HalfEven).is_err()
+            && judge(&x, &FVal { sig: BigInt::from(12), exp: -1, base: 10 }, Flag::Exact, 2, Mode::Zero).is_err()
+            && judge(&x, &FVal { sig: BigInt::from(14), exp: -1, base: 10 }, Flag::Inexact(dashu_float::round::Rounding::AddOne), 2, Mode::Up).is_err()
+            && judge(&SqrtOf(Rat::from_i(2)), &FVal { sig: BigInt::from(14), exp: -1, base: 10 }, Flag::Inexact(dashu_float::round::Rounding::NoOp), 2, Mode::Zero).is_ok()
+            && judge(&SqrtOf(Rat::from_i(2)), &FVal { sig: BigInt::from(15), exp: -1, base: 10 }, Flag::Inexact(dashu_float::round::Rounding::AddOne), 2, Mode::HalfAway).is_err()
+            && representable(&Rat::new(BigInt::from(5), BigInt::from(4)), 2, 3)
+            && !representable(&Rat::new(BigInt::from(1), BigInt::from(3)), 10, 5);
+        if !ok {
+            ctx.machinery("rounding-contract judge failed its self-check");
+        }
+    }
+    let quick = ctx.quick();
+    // base 2
+    let p2: Vec<usize> = if quick { vec![1, 2, 3, 4, 5] } else { vec![1, 2, 3, 4, 5, 6, 7, 8] };
+    let (big2, small2) = if quick { ((4u32, 7i64), (4u32, 1i64)) } else { ((6u32, 9i64), (6u32, 1i64)) };
+    for_all_modes!(base_run, 2, (ctx, &big2, &small2, &p2, !quick && false));
+    // base 10
+    let p10: Vec<usize> = if quick { vec![1, 2, 3] } else { vec![1, 2, 3, 4] };
+    let (big10, small10) = if quick { ((2u32, 4i64), (2u32, 1i64)) } else { ((2u32, 5i64), (2u32, 2i64)) };
+    for_all_modes!(base_run, 10, (ctx, &big10, &small10, &p10, false));
+    if !quick {
+        // full products on smaller closed universes (no exponent restriction on either operand)
+        let b2 = (4u32, 7i64);
+        for_all_modes!(base_run, 2, (ctx, &b2, &b2, &p2, true));
+        let b10 = (2u32, 4i64);
+        for_all_modes!(base_run, 10, (ctx, &b10, &b10, &p10, true));
+        let p3: Vec<usize> = vec![1, 2, 3, 4, 5];
+        let (big3, small3) = ((3u32, 6i64), (3u32, 1i64));
+        for_all_modes!(base_run, 3, (ctx, &big3, &small3, &p3, false));
+        let p16: Vec<usize> = vec![1, 2, 3, 4];
+        let (big16, small16) = ((2u32, 5i64), (2u32, 1i64));
+        for_all_modes!(base_run, 16, (ctx, &big16, &small16, &p16, false));
+        let p36: Vec<usize> = vec![1, 2, 3];
+        let (big36, small36) = ((1u32, 4i64), (1u32, 2i64));
+        for_all_modes!(base_run, 36, (ctx, &big36, &small36, &p36, false));
+    } else {
+        // one odd base and one power-of-two base with a tiny universe also in the quick tier
+        let p3: Vec<usize> = vec![1, 2, 3];
+        let (big3, small3) = ((2u32, 4i64), (2u32, 1i64));
+        for_all_modes!(base_run, 3, (ctx, &big3, &small3, &p3, false));
+        let p16: Vec<usize> = vec![1, 2];
+        let (big16, small16) = ((1u32, 4i64), (1u32, 1i64));
+        for_all_modes!(base_run, 16, (ctx, &big16, &small16, &p16, false));
+    }
+    ctx.bound("bases", serde_json::json!(if quick { vec![2, 10, 3, 16] } else { vec![2, 10, 3, 16, 36] }));
 }
